@@ -21,9 +21,11 @@ static void vf_load(void) {
   char const * fn = getenv("VF_REPLAY"); FILE * f;
   vf_ntab = 0;
   if (!fn || !(f = fopen(fn, "r"))) return;
-  while (vf_ntab < 4096 &&
-      fscanf(f, "%63s %llx", vf_tab[vf_ntab].name, &vf_tab[vf_ntab].bits) == 2)
-    ++vf_ntab;
+  { char line[512];
+    while (vf_ntab < 4096 && fgets(line, sizeof(line), f))
+      if (line[0] != '#' && sscanf(line, "%63s %llx", vf_tab[vf_ntab].name, &vf_tab[vf_ntab].bits) == 2)     /* '#...' header lines: comments */
+        ++vf_ntab;
+  }
   fclose(f);
 }
 static unsigned long long vf_get(char const * name, long idx) {
